@@ -453,7 +453,7 @@ def gen_units(rng, n):
 def unit_expr(u):
     fn, a = u["fn"], u["args"]
     if fn == "pre":
-        return f"[[iso_pre {ftet(a['t1'])} {ftet(a['t2'])} {fv(a['n'])} {cm.fhex(a['d'])}]]"
+        return f"[iso_pre {ftet(a['t1'])} {ftet(a['t2'])} {fv(a['n'])} {cm.fhex(a['d'])}]"
     if fn == "outside":
         return f"[[iso_outside {fhp(a['h'])} {fv2(a['p'])}]]"
     if fn == "two":
@@ -831,28 +831,65 @@ def run(tier, seed, replay=None):
             if r["intersection"] or r["n_contacts"] != 0 or any(x != 0.0 for x in r["w12"] + r["w21"]):
                 R.failure(f"bodies with disjoint convex hulls (sep_cert): intersection={r['intersection']} contacts={r['n_contacts']} "
                           f"w12={r['w12']} w21={r['w21']}", c, site="find_contact_surface")
-    # ---------------- order independence, bodies bookkeeping (Python oracles)
+    # ---------------- order independence, completeness, bodies bookkeeping (Python oracles)
+    has_f18 = any(k.get("id") == "F18" for k in R.known)
+    f18_hits = [0]
+
+    def polygon_failure(what, case, t1, t2, plane, site):
+        """a reported polygon that is not the whole exact intersection / depends on the order.  Known
+        finding F18 (if recorded) covers exactly the inputs whose exact polygon has a vertex on >= 3 of
+        the 8 face planes (coincident / concurrent face lines); anything else is a violation."""
+        if has_f18 and hg.concurrent_lines(t1, t2, plane):
+            f18_hits[0] += 1
+            kf = [k for k in R.known if k.get("id") == "F18"][0]
+            R.known_finding("F18", kf.get("what", what)[:300])
+        else:
+            R.failure(what, case, site=site)
+
+    def area_check(t1, t2, plane, inter, area, case, tag):
+        """exact rational intersection polygon of the reported plane with both tetrahedra against the
+        reported area (0 if reported as not intersecting)"""
+        L = scale_of(t1, t2)
+        ex = hg.exact_area(hg.exact_polygon(t1, t2, plane), plane)
+        got = area if inter else 0.0
+        if abs(ex - got) > 1e-9 * L * L:
+            polygon_failure(f"reported contact polygon is not the intersection of the plane with both tetrahedra ({tag}): "
+                            f"area {got!r}, exact area {ex!r}", case, t1, t2, plane, "intersect_tetrahedron_pair")
+            return False
+        return True
+
     order_skipped = 0
+    area_checked = 0
     for c, r in zip(allpairs, allpres):
         if r is None or "exc" in r:
             continue
         a, b = r["o12"], r["o21"]
         L = scale_of(c["t1"], c["t2"])
+        ok = True
+        for o, ro, ta, tb in (("o12", a, c["t1"], c["t2"]), ("o21", b, c["t2"], c["t1"])):
+            if ro.get("same") or not (ro["inter"] or ro.get("pre")) or not finite(ro["plane"]):
+                continue
+            area_checked += 1
+            ok = area_check(ta, tb, ro["plane"], ro["inter"], ro.get("area", 0.0), dict(c, result=ro, order=o), o) and ok
+        if not ok:
+            continue
         if a["inter"] != b["inter"]:
             rep = a if a["inter"] else b
-            if rep.get("area", 1.0) <= 1e-9 * L * L or near_tie(a, c["t1"], c["t2"]) and rep.get("area", 1.0) <= 1e-6 * L * L:
+            if rep.get("area", 1.0) <= 1e-9 * L * L:
                 order_skipped += 1          # a zero-area contact appears in one order only: not a polygon difference
             else:
-                R.failure(f"intersection flag depends on the order of the tetrahedra ({a['inter']} vs {b['inter']}), area {rep.get('area')}",
-                          dict(c, o12=a, o21=b), site="intersect_tetrahedron_pair")
+                polygon_failure(f"intersection flag depends on the order of the tetrahedra ({a['inter']} vs {b['inter']}), area {rep.get('area')}",
+                                dict(c, o12=a, o21=b), c["t1"], c["t2"], a["plane"] if a["inter"] else [-x for x in b["plane"]],
+                                "intersect_tetrahedron_pair")
             continue
         if not a["inter"]:
             continue
         if a.get("same") or b.get("same"):
             continue
         if set_dist(a["poly"], b["poly"]) > 1e-9 * L:
-            R.failure(f"contact polygon depends on the order of the tetrahedra: Hausdorff distance of the vertex sets {set_dist(a['poly'], b['poly']):.3g}",
-                      dict(c, o12=a, o21=b), site="intersect_tetrahedron_pair")
+            polygon_failure(f"contact polygon depends on the order of the tetrahedra: Hausdorff distance of the vertex sets "
+                            f"{set_dist(a['poly'], b['poly']):.3g}", dict(c, o12=a, o21=b), c["t1"], c["t2"], a["plane"],
+                            "intersect_tetrahedron_pair")
         elif max_dev(a["plane"], [-x for x in b["plane"]]) > 1e-9 * L:
             R.failure("contact plane of the swapped pair is not the negated plane", dict(c, o12=a, o21=b), site="contact_plane")
         elif abs(a["area"] - b["area"]) > 1e-9 * L * L:
@@ -878,13 +915,19 @@ def run(tier, seed, replay=None):
             L = scale_of(ct["t1"], ct["t2"])
             if ct["area"] < 0:
                 R.failure(f"negative contact area {ct['area']}", dict(c, contact=ct), site="compute_contact_force")
+            if not finite(ct["plane"], ct["poly"], ct["area"]):
+                continue
+            area_checked += 1
+            if not area_check(ct["t1"], ct["t2"], ct["plane"], True, ct["area"], dict(c, contact=ct), f"body contact {ct['i']},{ct['j']}"):
+                continue
             if ct["sw_inter"]:
                 if set_dist(ct["poly"], ct["sw_poly"]) > 1e-9 * L:
-                    R.failure(f"contact polygon depends on the order of the tetrahedra (body contact {ct['i']},{ct['j']}): "
-                              f"{set_dist(ct['poly'], ct['sw_poly']):.3g}", dict(c, contact=ct), site="intersect_tetrahedron_pair")
+                    polygon_failure(f"contact polygon depends on the order of the tetrahedra (body contact {ct['i']},{ct['j']}): "
+                                    f"{set_dist(ct['poly'], ct['sw_poly']):.3g}", dict(c, contact=ct), ct["t1"], ct["t2"], ct["plane"],
+                                    "intersect_tetrahedron_pair")
             elif ct["area"] > 1e-9 * L * L:
-                R.failure(f"swapped tetrahedron pair ({ct['j']},{ct['i']}) does not intersect, area {ct['area']}", dict(c, contact=ct),
-                          site="intersect_tetrahedron_pair")
+                polygon_failure(f"swapped tetrahedron pair ({ct['j']},{ct['i']}) does not intersect, area {ct['area']}", dict(c, contact=ct),
+                                ct["t1"], ct["t2"], ct["plane"], "intersect_tetrahedron_pair")
     # re-run contacts must reproduce what find_contact_surface stored
     for c, r in zip(rerun, rres):
         if r is None or "exc" in r:
@@ -935,6 +978,8 @@ def run(tier, seed, replay=None):
     R.cov["disjoint_inputs_certified"] = n_disjoint
     R.cov["body_contacts_judged"] = body_contacts
     R.cov["order_flag_differences_on_zero_area_contacts"] = order_skipped
+    R.cov["areas_checked_against_exact_polygon"] = area_checked
+    R.cov["known_finding_F18_inputs"] = f18_hits[0]
     R.cov["input_histogram"] = hist
     R.cov["intersecting_results_by_class"] = n_inter
     R.cov["correspondence"] = stats
@@ -969,7 +1014,6 @@ def compare_pair(m, c, ro, ta, ea, tb, eb, Ea, Eb, stats, branch):
     ip = iso[0][0]
     if bool(ip[4]) != bool(ro.get("same")):
         diffs.append(f"contact_plane: same flag model {bool(ip[4])} implementation {ro.get('same')}")
-    raw_scale = max(1e-300, max(abs(x) for x in flat(ro["plane0"])))
     if ro.get("same"):
         tick("contact_plane: same tetrahedron")
         if max_dev(ip[:4], ro["plane0"]) > 0.0:
@@ -1035,7 +1079,7 @@ def compare_pair(m, c, ro, ta, ea, tb, eb, Ea, Eb, stats, branch):
                     okrows = False
                     diffs.append(f"make_halfplanes: row {k} (face {ci}) model {cr} implementation {rows[k]}")
                     break
-                md["halfplanes"] = max(md["halfplanes"], dv)
+                md["halfplanes"] = max(md["halfplanes"], dv / max(1.0, max(abs(x) for x in rows[k])))
                 k += 1
             else:
                 tick("make_halfplanes: face parallel to the plane")
